@@ -3,15 +3,117 @@ from harness import pm_prop
 
 PROPERTY = 'C04'
 LEAN_PROPS = 'PlumpyModel.Props.C04'
-ASSUMPTIONS = pm_prop.ASSUMPTIONS
+ASSUMPTIONS = pm_prop.ASSUMPTIONS + [
+    'restored configurations: a Bundle taken at every entered-state event of each corpus program is loaded in a fresh loop and '
+    'killed (kill() or cancelling its future) after 0..2 callbacks; the model has no checkpoints, this stream is decided by the '
+    'monitor on the real code alone']
 TRUSTED = pm_prop.TRUSTED
 ALPHABET = ['pause', 'play', 'kill', 'resume', 'complete', 'cancelfut', 'fail']
 MONITORS = ['c04', 'c01']
 
 
+def _restored_kill_case(prog):
+    """every reachable live configuration includes one loaded from a checkpoint: kill() / future().cancel() must end it KILLED"""
+    import asyncio
+    import harness.detloop as detloop
+    import plumpy
+    from plumpy.base.state_machine import StateEventHook
+    from harness import pm
+    fails = []
+    r = pm.Run(prog)
+    r.p.remove_process_listener(r.lis)
+    snaps = []
+
+    def cb(sm, hook, state):
+        if r.p.has_terminated():
+            return
+        try:
+            snaps.append((r.p.state.value, plumpy.Bundle(r.p)))
+        except Exception:  # noqa  (whether every configuration can be checkpointed is C07's business)
+            pass
+    r.p.add_state_event_callback(StateEventHook.ENTERED_STATE, cb)
+    for _ in range(200):
+        if not r.tick():
+            break
+    r.finalize()
+    r.close()
+    n = 0
+    for label, bundle in snaps:
+        for how in ('kill', 'cancel'):
+            for delay in (0, 1, 2):
+                loop = detloop.DetLoop()
+                asyncio.set_event_loop(loop)
+                try:
+                    p2 = bundle.unbundle(plumpy.LoadSaveContext(loop=loop))
+                except Exception:  # noqa  (C08's business)
+                    loop.close()
+                    continue
+                p2._trace, p2._raised, p2._futs = [], [], []
+                loop.create_task(p2.step_until_terminated())
+                for _ in range(delay):
+                    loop.step_one()
+                if p2.has_terminated():
+                    loop.close()
+                    continue
+                raised, ret = None, None
+                q = loop.n_ready()
+                try:
+                    ret = p2.kill('restored') if how == 'kill' else p2.future().cancel()
+                except BaseException as e:  # noqa
+                    raised = e
+                if how == 'cancel':
+                    # the cancellation acts as a kill() made when the future's done-callbacks run, i.e. after the q callbacks
+                    # that were ready before it: a process that terminates by itself within those is under no obligation
+                    for _ in range(q):
+                        loop.step_one()
+                    if p2.has_terminated() and p2.state.value != 'killed':
+                        loop.close()
+                        continue
+                n += 1
+                loop.drain(500)
+                st = p2.state.value
+                if asyncio.isfuture(ret):
+                    ret = ('pending' if not ret.done() else 'cancelled' if ret.cancelled() else
+                           'exc' if ret.exception() is not None else ret.result())
+                ok = raised is None and (st == 'killed' or st == 'excepted') and (how != 'kill' or (ret is True) == (st == 'killed'))
+                if not ok:
+                    fails.append(dict(signature=f'c04-restored-{how}-lost', clause='from every reachable live configuration (here: loaded from a '
+                                      'checkpoint) kill(), or cancelling the process\'s future, terminates the process',
+                                      detail=dict(checkpoint_state=label, how=how, callbacks_before=delay, final=st, returned=str(ret),
+                                                  raised=repr(raised) if raised else None)))
+                loop.close()
+    return n, fails
+
+
+def _restored_work(item):
+    name, prog = item
+    n, fails = _restored_kill_case(prog)
+    for f in fails:
+        f['case'] = dict(program=name, prog=prog, schedule={}, restore_stream=True)
+    return n, fails
+
+
 def run(ctx):
-    return pm_prop.run_pm(ctx, ALPHABET, MONITORS, listeners=True)
+    import multiprocessing as mp
+    from harness import pm
+    out = pm_prop.run_pm(ctx, ALPHABET, MONITORS, listeners=True)
+    progs = [(n, p) for n, p in pm.CORPUS.items() if n != 'RetAwaitable']
+    for i in range(60 if not ctx.thorough else 1000):
+        progs.append((f'rand{i}', pm.random_prog(ctx.rng)))
+    with mp.Pool(ctx.workers) as pool:
+        res = pool.map(_restored_work, progs, chunksize=4)
+    for _n, fails in res:
+        out['failures'].extend(fails)
+    n = sum(n for n, _ in res)
+    out['evaluations'] += n
+    out['histograms']['restored_kill_stream'] = dict(programs=len(progs), kills_of_restored_processes=n)
+    return out
 
 
 def replay(ctx, failure):
+    if failure['case'].get('restore_stream'):
+        from harness import pm
+        prog, _ = pm.fix_case(failure['case'])
+        n, fails = _restored_kill_case(prog)
+        return dict(kills_of_restored_processes=n, failures=fails)
     return pm_prop.replay_pm(ctx, failure, MONITORS)
